@@ -251,3 +251,14 @@ func Failf(t testing.TB, test string, c any, format string, a ...any) {
 	p := WriteReplay(test, c)
 	t.Fatalf("VERIF-REPLAY %s\n%s", p, fmt.Sprintf(format, a...))
 }
+
+// Mix spreads a drawn integer uniformly over [0,n): rapid favours small values and range bounds,
+// which starves the later alternatives of long lists; shrinking still works on the drawn integer.
+func Mix(u uint64, n int) int {
+	u ^= u >> 33
+	u *= 0xff51afd7ed558ccd
+	u ^= u >> 33
+	u *= 0xc4ceb9fe1a85ec53
+	u ^= u >> 33
+	return int(u % uint64(n))
+}
